@@ -128,6 +128,60 @@ def record(ns, rng, cases):
     return events
 
 
+def combine_events(ns, rng, cases, tid0, n_max):
+    """two usage patterns in two zones feeding one job: the job's occurrences across usage patterns against the two UTC series"""
+    fixed = {}
+    for z in sorted(ns.pytz.all_timezones):
+        tb = zone_table(ns, z)
+        if len(tb) == 1:
+            fixed.setdefault(tb[0][1], []).append(z)
+    m = {}
+    m["sto1"] = efx.new_obj("Storage")
+    m["sv1"] = efx.new_obj("Server", storage="sto1")
+    m["j1"] = efx.new_obj("Job", server="sv1")
+    m["s1"] = efx.new_obj("UsageJourneyStep", jobs=["j1"], user_time_spent=[1, "min"])
+    m["uj1"] = efx.new_obj("UsageJourney", uj_steps=["s1"])
+    m["d1"], m["n1"] = efx.new_obj("Device"), efx.new_obj("Network")
+    events, tid = [], tid0
+    picked = [c for c in cases if c[2] is not None]
+    rng.shuffle(picked)
+    for name, table, at_min in picked[:n_max]:
+        off_before = [r for r in table if r[0] < at_min][-1][1]
+        off_after = [r for r in table if r[0] <= at_min][-1][1]
+        # the other zone: fixed offset equal to this zone's offset before the transition (same first UTC instant, and
+        # the same number of UTC hours when the transition repeats an hour), else any awkward zone
+        other = rng.choice(fixed[off_before]) if off_before in fixed and rng.random() < 0.7 else rng.choice(list(AWKWARD))
+        if SUB_MINUTE.get(name) or SUB_MINUTE.get(other):
+            continue
+        n = 8
+        start_min = ((at_min + off_before) // 60) * 60 - 60 * rng.choice([2, 3, 4])
+        start = (EPOCH + timedelta(minutes=start_min)).strftime("%Y-%m-%dT%H:%M:%S")
+        mm = dict(m)
+        mm["c1"], mm["c2"] = efx.new_obj("Country", tz=name), efx.new_obj("Country", tz=other)
+        v1, v2 = [rng.choice([1, 2, 3, 5, 8]) for _ in range(n)], [rng.choice([1, 2, 3, 5, 8]) * 10 for _ in range(n)]
+        mm["up1"] = efx.new_obj("UsagePattern", usage_journey="uj1", network="n1", country="c1", devices=["d1"], starts=v1, start=start)
+        mm["up2"] = efx.new_obj("UsagePattern", usage_journey="uj1", network="n1", country="c2", devices=["d1"], starts=v2, start=start)
+        mm["sys"] = efx.new_obj("System", usage_patterns=["up1", "up2"])
+        try:
+            live = efx.build(ns, mm)
+        except Exception as ex:   # noqa
+            raise MachineryError(f"two-zone system cannot be built ({name}, {other}): {ex!r}")
+
+        def ser(v):
+            if isinstance(v, ns.EmptyExplainableObject):
+                return [], []
+            df = v.value
+            return [int(x) // (60 * 10 ** 9) for x in df.index.asi8], [int(round(float(x))) for x in df["value"].values._data]
+        t1, w1 = ser(live["up1"].utc_hourly_usage_journey_starts)
+        t2, w2 = ser(live["up2"].utc_hourly_usage_journey_starts)
+        ts, ws = ser(live["j1"].hourly_occurrences_across_usage_patterns)
+        tid += 1
+        events.append({"tid": tid, "seq": 0, "ev": "Combine", "name": f"{name} + {other}", "utc1_t": t1, "utc1_v": w1,
+                       "utc2_t": t2, "utc2_v": w2, "sum_t": ts, "sum_v": ws, "via_usage_pattern": True,
+                       "local_t": [start_min], "utc_t": ts, "falls_back": off_after < off_before})
+    return events
+
+
 def run(tier, out):
     wd = work_dir("c11")
     try:
@@ -161,8 +215,11 @@ def run(tier, out):
             for t in pick:
                 cases.append((name, table, t))
         events = record(ns, rng, cases)
+        comb = combine_events(ns, rng, cases, 10 ** 6, 40 if tier == "quick" else 1500)
+        events += comb
         trace = wd + "/c11.ndjson"
-        tracecheck.write_trace(trace, events, keys=("tid", "seq", "ev", "name", "zone", "local_t", "local_v", "utc_t", "utc_v"))
+        tracecheck.write_trace(trace, events, keys=("tid", "seq", "ev", "name", "zone", "local_t", "local_v", "utc_t", "utc_v",
+                                                      "utc1_t", "utc1_v", "utc2_t", "utc2_v", "sum_t", "sum_v"))
         fails, _n, res2 = tracecheck.validate(wd, "Trace_Time", trace, {}, timeout=6000)
         out.add_tlc(res2, "Trace_Time on recorded conversions")
         out.traces += len(events)
@@ -171,6 +228,8 @@ def run(tier, out):
         kinds = {"skipped": 0, "repeated": 0, "none": 0}
         for e in events:
             out.nontrivial.add((e["name"], e["local_t"][0]))
+            if e["ev"] == "Combine":
+                continue
             lost = len(e["local_t"]) - len(e["utc_t"])
             kinds["skipped" if lost > 0 else "none"] += 1
         for t, s, clause, data in fails:
@@ -184,6 +243,7 @@ def run(tier, out):
                                   "real code and judged admissible or not by TLC; distinct by (zone, first local hour)",
                           "zones": len(set(e["name"] for e in events)), "conversions_with_merged_hours": kinds["skipped"],
                           "through_usage_pattern": sum(1 for e in events if e["via_usage_pattern"]),
+                          "two_zone_systems_combined": len(comb), "of_which_with_a_fall_back": sum(1 for e in comb if e["falls_back"]),
                           "cases_skipped_because_of_sub_minute_offsets_or_instants": sorted(set(SKIPPED))})
         out.assumptions += ["pytz's transition tables are the definition of the zones",
                             "for a repeated local hour either of its two instants is accepted, for a skipped one either "
